@@ -102,7 +102,7 @@ def run_check(P, tier, seed, replay=None):
                 broken.append(("assumptions", "%s: %s" % (extra_props, p_), ""))
         chk_note = None
         if tier == "thorough" and r.ok:
-            rc_ = coqchk(P.COQ_PROPS)
+            rc_ = coqchk([P.COQ_PROPS] + list(getattr(P, "COQ_PROPS_EXTRA", [])))
             chk_note = rc_.detail
             if not rc_.ok:
                 broken.append(("coqchk", rc_.detail, rc_.out[-3000:]))
